@@ -92,6 +92,7 @@ type Oracle struct {
 	maxTermSeen []uint64 // per node: highest term ever reported by any incarnation
 	leaderObs   []leaderObsRec
 	snapSends   map[string]*snapSendRec
+	backoff     map[string]*backoffRec
 	restoresOK  []restoreOK
 	installing  []int // per node: InstallSnapshot RPCs being handled
 	userRestoring []int
@@ -119,6 +120,13 @@ type leaderObsRec struct {
 	endSeq    int64
 }
 
+type backoffRec struct {
+	low    uint64 // lowest previous-entry index rejected so far in this walk
+	set    bool
+	stuck  int
+	dstInc int
+}
+
 type snapSendRec struct {
 	okCount   int
 	lastMatch uint64
@@ -127,7 +135,7 @@ type snapSendRec struct {
 func newOracle(w *World, n int) *Oracle {
 	return &Oracle{w: w, entries: map[idxTerm]*EntryRec{}, termFirst: map[uint64]uint64{}, ghost: map[uint64]*Ghost{},
 		leaders: map[uint64]leaderRec{}, senders: map[uint64]int{}, votes: map[idxTerm]string{}, canon: map[uint64]FSMState{},
-		maxTermSeen: make([]uint64, n), snapSends: map[string]*snapSendRec{}, installing: make([]int, n), userRestoring: make([]int, n),
+		maxTermSeen: make([]uint64, n), snapSends: map[string]*snapSendRec{}, backoff: map[string]*backoffRec{}, installing: make([]int, n), userRestoring: make([]int, n),
 		lease: newLeaseState(n), iso: newIsoState(n), conv: &convState{}, maxRespTerm: make([]uint64, n),
 		pendingVoteTerm: make([]pendingVote, n), durableVote: map[idxTerm]int64{}}
 }
@@ -944,6 +952,7 @@ func (o *Oracle) onDeliver(inc *Inc, m *Msg) {
 		o.iso.tn[inc.node.idx] = true
 		o.w.stats.probe("timeout_now_delivered")
 		o.w.flt.onEvent("timeoutnow", inc.node.idx)
+
 	}
 	if m.Kind == "IS" {
 		o.installing[inc.node.idx]++
@@ -1089,7 +1098,71 @@ func (o *Oracle) checkAppendSuccess(inc *Inc, m *Msg) {
 	}
 }
 
-func (o *Oracle) onResponse(inc *Inc, m *Msg) { o.noteContact(m.Src, m.Dst) }
+func (o *Oracle) onResponse(inc *Inc, m *Msg) {
+	o.noteContact(m.Src, m.Dst)
+	o.checkBackoff(inc, m)
+	// fault and operation placed inside a leadership transfer (C20 profile): the target has
+	// acknowledged TimeoutNow; half of the time it is cut off at once, so that it cannot win and the
+	// old leader sits in "transfer in progress" for an election time-out, and the next client
+	// operation is a Restore on that leader
+	if w := o.w; m.Kind == "TN" && w.cfg.Profile == "C20" && w.cfg.Ops["restore"] > 0 && !w.quiet && w.ch.Chance(simrt.SWork, 1, 2) {
+		w.flt.onEvent("timeoutnow-acked", m.Dst)
+		w.flt.inject("isolate_hot")
+		w.cl.restoreOn = w.nodes[m.Src]
+	}
+}
+
+// checkBackoff (C12, "catch-up makes progress rather than repeating the same transfer"): while a
+// leader walks back to find where a follower's log agrees with its own, the previous-entry index
+// of the requests the follower rejects goes strictly down until one is accepted (or a snapshot
+// is sent). Judged on the answers in the order the leader receives them, per leader incarnation,
+// term and follower; three rejections that do not go further back than an earlier one in the
+// same walk mean it is going round in circles.
+func (o *Oracle) checkBackoff(inc *Inc, m *Msg) {
+	if m.Kind != "AE" && m.Kind != "IS" {
+		return
+	}
+	w := o.w
+	key := fmt.Sprintf("%d#%d>%d@%d", m.Src, m.SrcInc, m.Dst, m.Term)
+	st := o.backoff[key]
+	if st == nil {
+		st = &backoffRec{}
+		o.backoff[key] = st
+	}
+	reset := func() { st.low, st.set, st.stuck = 0, false, 0 }
+	if m.Kind == "IS" {
+		reset()
+		return
+	}
+	req, _ := m.Req.(*raft.AppendEntriesRequest)
+	resp, _ := m.Resp.(*raft.AppendEntriesResponse)
+	if req == nil || resp == nil || m.Pipeline {
+		return
+	}
+	dst := w.nodes[m.Dst]
+	if resp.Success || resp.Term > m.Term || dst.inc == nil || dst.inc.n != st.dstInc {
+		reset()
+		if dst.inc != nil {
+			st.dstInc = dst.inc.n
+		}
+		return
+	}
+	// rejected; only a rejection for a missing or mismatching previous entry is a step of the walk
+	// (the follower marks those NoRetryBackoff; a failed store operation is not one)
+	if !resp.NoRetryBackoff {
+		return
+	}
+	if st.set && req.PrevLogEntry >= st.low {
+		st.stuck++
+		if st.stuck >= 3 {
+			w.violate("C12", "C12/append-entries-walk-back-not-progressing", "s%d (term %d) keeps being rejected by s%d without going further back: previous-entry index %d after an earlier rejection at %d in the same walk (follower's last index %d)",
+				m.Src, m.Term, m.Dst, req.PrevLogEntry, st.low, resp.LastLog)
+			reset()
+		}
+		return
+	}
+	st.low, st.set = req.PrevLogEntry, true
+}
 
 // ------------------------------------------------------------------ polling
 
